@@ -1,4 +1,5 @@
 import GffProofs.Props.C14
+import GffProofs.Props.C14b
 open GffProofs.C14
 #print axioms classify_cases
 #print axioms classify_directive_iff
@@ -16,3 +17,8 @@ open GffProofs.C14
 #print axioms db_directives_current_partial
 #print axioms db_directives_current_fails
 #print axioms db_directives_current_full_false
+#print axioms finalize_directives
+#print axioms update_directives
+#print axioms history_directives
+#print axioms directives_survive
+#print axioms directives_survive_file
